@@ -135,6 +135,8 @@ class Ctx:
         self.tmpdir = os.path.join(base, "verif-c16-%d" % os.getpid())      # the files readXML is given (tmpfs if there is one)
         os.makedirs(self.tmpdir, exist_ok=True)
         self.safe = None
+        self.fd_delta = 0
+        self.fd_reports = 0
         self.calls = 0
 
     def close(self):
@@ -301,7 +303,7 @@ def report_unsafe(cx, bad, tag):
             chk.violation(sig, what, rep)
 
 
-SINGLE = ("Nest", "Big", "ReadMissing", "ReadSeq", "ReadThreads")     # actions whose history is one call (or one short sequence of calls)
+SINGLE = ("Nest", "Big", "ReadMissing", "ReadSeq", "ReadThreads", "ReadRep")     # actions whose history is one call (or one short sequence of calls)
 
 
 def check_single(cx, h, r, tag):
@@ -310,7 +312,8 @@ def check_single(cx, h, r, tag):
     st = h[0]
     a, arg, exp = st["a"], st["arg"], st.get("exp", {})
     cls = {"Nest": lambda: "depth=%s,form=%s" % (arg["depth"], arg["form"]), "Big": lambda: "%s,n=%s" % (arg["kind"], arg["n"]),
-           "ReadMissing": lambda: "no-such-file", "ReadSeq": lambda: "", "ReadThreads": lambda: "threads=%d" % len(arg["threads"])}[a]()
+           "ReadMissing": lambda: "no-such-file", "ReadSeq": lambda: "", "ReadThreads": lambda: "threads=%d" % len(arg["threads"]),
+           "ReadRep": lambda: "nofile=%s" % arg["nofile"]}[a]()
 
     def report(cls_, field, expected, observed):
         chk.violation(sig_of(API, {"action": a, "cls": cls_, "field": family_path(field)}),
@@ -329,6 +332,10 @@ def check_single(cx, h, r, tag):
     def step(cls_, path, e, ob):
         """one call: e = expectation of the specification (tree, or only the admitted endings)"""
         cx.calls += 1
+        if "fd_delta" in ob:
+            cx.fd_reports += 1
+            if ob["fd_delta"] != cx.fd_delta:                 # fds' = fds, whether the call returned or threw
+                report(cls_, path + "/fd_delta", cx.fd_delta, ob["fd_delta"])
         if ob.get("outcome") not in cx.safe:
             return report(cls_, path + "/outcome", cx.safe, ob.get("outcome"))
         e2 = {k: v for k, v in e.items() if k != "outcomes"}
@@ -347,7 +354,24 @@ def check_single(cx, h, r, tag):
             if ob != first:
                 mm = adt.subset_mismatch(first, ob) or ("", first, ob)
                 report(exp["cls"][i], "/differs-from-first-read-of-the-same-bytes" + mm[0], mm[1], mm[2])
+    elif a == "ReadRep":
+        if "parts" not in o:
+            return report(cls, "crash", cx.safe, o)
+        if o["nofile"] != exp["nofile"]:
+            raise tla.InfraError("the long history did not run with the lowered descriptor limit: %s" % o["nofile"])
+        for k, (e, ob) in enumerate(zip(exp["parts"], o["parts"])):
+            pcls = "%s,part=%d" % (cls, k + 1)
+            step(pcls, "/first", e["first"], ob["first"])
+            cx.calls += e["reads"] - 1
+            mm = adt.subset_mismatch({x: e[x] for x in ("reads", "distinct", "fd_delta_min", "fd_delta_max")}, ob)
+            if mm:
+                report(pcls, mm[0], mm[1], mm[2])
+        if o["fd_delta_total"] != exp["fd_delta_total"]:
+            report(cls, "/fd_delta_total", exp["fd_delta_total"], o["fd_delta_total"])
+        cx.chk.cov["long_history"] = {"nofile": o["nofile"], "reads": [p_["reads"] for p_ in o["parts"]]}
     else:
+        if o["fds"][1] - o["fds"][0] != cx.fd_delta:
+            report(cls, "/fd_delta-over-all-threads", cx.fd_delta, o["fds"][1] - o["fds"][0])
         for t, (es, obs) in enumerate(zip(exp["threads"], o["threads"])):
             for e, ob in zip(es, obs):
                 step(cls, "", e, ob["first"])
@@ -373,6 +397,14 @@ def check_bulk(cx, hs, results, tag):
             raise tla.InfraError("driver failed on %s: %s" % (st["a"], o))
         if "count" in st.get("exp", {}) and o["count"] != st["exp"]["count"]:
             raise tla.InfraError("driver enumerated %d strings, the specification %d: %s" % (o["count"], st["exp"]["count"], st["arg"]))
+        fds = o.get("fds") or [-1, -1]
+        if fds[0] >= 0 and fds[1] >= 0:
+            cx.fd_reports += 1
+            if fds[1] - fds[0] != cx.fd_delta:
+                chk.violation(sig_of(API, {"action": st["a"], "cls": "batch", "field": "fd_delta"}),
+                              "%s: %s: open descriptors of the process at the start / end of a batch of reads: %s; the specification: difference %s"
+                              % (API, st["a"], fds, cx.fd_delta),
+                              {"kind": "history", "property": chk.pid, "tag": tag, "sig_prefix": API, "meta": None, "history": h, "admitted": cx.safe})
         notrun = o["outcomes"].get("not_run", 0)
         cx.calls += o["count"] - notrun
         skipped["not_run"] += notrun
@@ -506,6 +538,9 @@ def do_run(cx, quick, rnd):
     if len(policy) != 1 or not enums or not reads or not rsafe:
         raise tla.InfraError("XmlDocGen emitted %d policy / %d enumeration / %d document cases" % (len(policy), len(enums), len(reads)))
     cx.safe = sorted(policy[0]["exp"]["outcomes"])
+    cx.fd_delta = policy[0]["exp"]["fd_delta"]                 # fds' = fds: what every call (and every batch of calls) must report
+    for c in reads:
+        c["exp"]["fd_delta"] = cx.fd_delta
     for e in enums + rsafe:
         if sorted(e["exp"]["outcomes"]) != cx.safe:
             raise tla.InfraError("inconsistent outcome sets in the emitted cases")
@@ -570,6 +605,8 @@ def do_run(cx, quick, rnd):
     chk.cov["formula_documents"] = nsingle["Big"]
     chk.cov["read_histories"] = nsingle["ReadSeq"]
     sizes = {c["exp"]["bytes"] for c in singles if c["a"] == "Big"}
+    if nsingle["ReadRep"] != 1:
+        raise tla.InfraError("vacuity guard: the long history is missing")
     if (nsingle["Big"] < 150 or nsingle["Nest"] < 20 or nsingle["ReadSeq"] < 500 or nsingle["ReadThreads"] < 3 or nsingle["ReadMissing"] != 1
             or not {4095, 4096, 4097, 65535, 65536, 65537, 1048576} <= sizes):
         raise tla.InfraError("vacuity guard: boundary / history cases missing: %s" % nsingle)
@@ -614,8 +651,12 @@ def do_run(cx, quick, rnd):
     chk.cov["distinct_nontrivial"] += len(set(jdocs))
     chk.add_sample({"kind": "recorded-observation-input", "doc": jdocs[0][:300]}, maxn=4)
 
+    lh = chk.cov.get("long_history") or {}
+    chk.cov["descriptor_observations"] = cx.fd_reports + len(reads)
+    if lh.get("nofile") != 256 or not lh.get("reads") or lh["reads"][0] < 300 or cx.fd_reports < sum(len(c["arg"]["docs"]) for c in singles if c["a"] == "ReadSeq"):
+        raise tla.InfraError("vacuity guard: long history %s, %d descriptor observations" % (lh, cx.fd_reports))
     chk.cov["evaluations"] = cx.calls
-    chk.require_actions(["Read", "Enumerate", "Mutations", "Batch", "Random", "Nest", "Big", "ReadSeq", "ReadThreads", "ReadMissing"])
+    chk.require_actions(["Read", "Enumerate", "Mutations", "Batch", "Random", "Nest", "Big", "ReadSeq", "ReadThreads", "ReadMissing", "ReadRep"])
     # vacuity guard: every byte value 0x80..0xFF stood at the start and at the end of a text content that was read and compared
     at_start, at_end, in_value = set(), set(), set()
     for c in reads:
